@@ -168,6 +168,51 @@ CHECKS.update({
         ref="§5 C14"),
 })
 
+CHECKS.update({
+    "C09": dict(
+        text="merge / _merge_two_compounds / expansion loop / rule application modelled on explicit graphs; proved: atom list of a merge is "
+        "a ++ b (explicit-H of the two bonded atoms adjusted), bonds shifted by |a| plus the new bond, every symbol count additive, "
+        "cut-merge round trip (connectivity unconditionally; exact under hOK), merge leaves no boundary, expansion terminates and keeps "
+        "the compound (under the decide +kernel table obligation noSwapOnExpansion), reported rules explain the heavy atoms, carbon "
+        "conserved; rule tables regenerated from the three JSON files. Real merge on RDKit-cut fragments compared with the model and "
+        "against RDKit (sanitises, no boundary, counts, canonical SMILES round trip unless a restriction rule fired).",
+        note=TB + "rule applicability (functional-group / pattern tests), ReplaceAction, SanitizeMol are oracle answers recorded from the "
+        "real run with two monitored laws; valence/sanitisation is RDKit's.",
+        technique="Lean 4 proofs over graph/merge model + decide +kernel table obligations + differential correspondence",
+        ref="§5 C09"),
+    "C10": dict(
+        text="get_largest_condition, the id->index re-attachment of MCSSearch.find and the alignment bookkeeping of "
+        "IterativeMCSReactionPairs/single_mcs modelled; proved: the retained condition has the maximal total (ties: larger first "
+        "pattern, then lowest index), exact skip rule, results land on the row whose id they carry (distinct ids), find is row-local, "
+        "mcs_list stays aligned with the sorted reactants for every cancellation pattern (witness: without the placeholder it shifts). "
+        "Statement on real searches: sorted_reactants = molecules of the carbon-richer side, every SMARTS matches its molecule, retained "
+        "condition maximal, no mixing under reordering and under injected faults / cancelled FindMCS.",
+        note=TB + "'genuine MCS' is RDKit's (FindMCS/RascalMCES); substructure containment is monitored with RDKit on every record.",
+        technique="Lean 4 proofs (table selection, id plumbing, alignment) + exhaustive small-table correspondence + fault injection",
+        ref="§5 C10"),
+    "C12": dict(
+        text="CacheManager + __try_cache/__rebalance_batch modelled as a state machine over a disk (scan, hit/miss, write = tmp file + one "
+        "rename, crash points, external truncation, stray files) with pipeline/key/encode as parameters; C12_history_transparent: from "
+        "the empty directory every history of runs, crashes at any point and disk corruptions leaves every completed run equal to the "
+        "uncached run (rows and stats), given KeyInjective, load(encode)=id and prefix=garbage; witnesses that a key without the "
+        "configuration or an in-place truncating write break it. Real Balancer(cache=True) histories incl. simulated kills at every byte "
+        "compared with the model (directory listing, hit pattern) and with cache=False.",
+        note=TB + "SHA-256 over canonical JSON treated as injective; os.replace atomic; JSON round trip exact (monitored).",
+        technique="Lean 4 refinement/invariant proof over histories + differential history runs with crash injection",
+        ref="§5 C12"),
+    "C20": dict(
+        text="enol / hemiketal rewrites and the (repaired) driver loop modelled on graphs with C/O valence arithmetic; proved: each rewrite "
+        "conserves every element count incl. H and the charge when it succeeds, the repaired loop conserves composition and is "
+        "idempotent for every oracle satisfying the monitored laws (C20_fixA_conserves, C20_fixA_idempotent), fixed points, and "
+        "kernel-decided witnesses of what the pre-fix loop did. Real MoleculeStandardizer compared with the model and against RDKit "
+        "(parses, same composition, idempotent, never an error text) on enols, enolates, gem-diols, hemiketals, alkoxides, mixtures, "
+        "random atom orders and corpus molecules.",
+        note=TB + "functional-group detection (fgutils) and canonical atom order are oracle answers recorded per molecule; fgutils' "
+        "answers depend on PYTHONHASHSEED, which the check pins.",
+        technique="Lean 4 proofs over a valence-arithmetic graph model + differential correspondence",
+        ref="§5 C20"),
+})
+
 NOT_YET = "check not built yet in this session (model layer pending); see DESIGN.md §11 build order"
 
 
